@@ -76,9 +76,27 @@ Definition la_slice (a : larrow) (start stop : option Z) : larrow :=
   | l0 :: _ => LA (ldom l0) (lcod (last ls l0)) ls
   end.
 
-(* cat.Arrow.__getitem__ with step == -1: keeps the WHOLE arrow's (cod, dom) *)
+(* cat.Arrow.__getitem__ with step == -1 (after the F17 repair): the full
+   reversal uses the arrow's (cod, dom); a partial one reads them off the
+   reversed boxes; an empty one is an identity chosen from `start` *)
 Definition la_slice_rev (a : larrow) (start stop : option Z) : larrow :=
-  LA (la_cod a) (la_dom a) (map layer_dagger (py_slice_rev (la_ls a) start stop)).
+  let ls := map layer_dagger (py_slice_rev (la_ls a) start stop) in
+  match start, stop with
+  | None, None => LA (la_cod a) (la_dom a) ls
+  | _, _ =>
+    match ls with
+    | [] =>
+        let n := len (la_ls a) in
+        let s := match start with None => n - 1 | Some s => s end in
+        if n - 1 <=? s then la_id (la_cod a)
+        else if s <? - n then la_id (la_dom a)
+        else match py_index (la_ls a) s with
+             | Ok l => la_id (lcod l)
+             | Err _ => la_id (la_dom a)   (* unreachable: -n <= s < n - 1 *)
+             end
+    | l0 :: _ => LA (ldom l0) (lcod (last ls l0)) ls
+    end
+  end.
 
 (* monoidal.Diagram *)
 Record diagram := D {
@@ -91,7 +109,8 @@ Fixpoint scan_layers (scan : ty) (bs : list box) (offs : list Z) : res (ty * lis
       let left := py_slice scan None (Some off) in
       let right := py_slice scan (Some (off + len (bdom b))) None in
       let l : layer := (left, b, right) in
-      if ty_eqb scan (ldom l) then
+      if negb ((0 <=? off) && (off <=? len scan - len (bdom b))) then Err AxiomError
+      else if ty_eqb scan (ldom l) then
         do r <- scan_layers (lcod l) bs' offs';
         Ok (fst r, l :: snd r)
       else Err AxiomError
